@@ -446,12 +446,14 @@ def i5(ctx):
         for vd in f.body.find('VarDecl'):
             if vd.name and vd.kids and vd.kids[-1] is not None and \
                     any(x.kind == 'CXXMemberCallExpr' and x.callee_name() == 'find' for x in vd.kids[-1].walk()):
-                finds[vd.name] = vd
+                finds[vd.id] = vd
         for c in f.body.find('CXXOperatorCallExpr'):
             # the result of a container lookup: `it->second` / `*it` is defined only for a hit
             if c.callee_name() in ('operator->', 'operator*') and len(c.kids) == 2:
                 v = strip_casts(c.kids[1])
-                if v is not None and v.kind == 'DeclRefExpr' and member_path(v) in finds:
+                # (by declaration, not by name: another `it` of the same function - the iterator
+                # that try_emplace / insert hands back always points at an element - is not this one)
+                if v is not None and v.kind == 'DeclRefExpr' and (v.ref or {}).get('id') in finds:
                     derefs.append((c, member_path(v)))
                     continue
             if c.callee_name() == 'operator*' and len(c.kids) == 2:
@@ -1151,3 +1153,115 @@ def x1(ctx):
     ctx.check('DictGetItemAs/swallow-agree', len({tuple(v) for v in vals.values()}) == 1,
               'error-swallowing dict lookups are the same in every configuration: %s' % (list(vals.values())[0] or 'none'),
               'error-swallowing dict lookups differ between configurations: %s' % vals, None)
+
+
+# ---------------------------------------------------------------------------------------------
+A8_ACCESSORS = {'back', 'front', 'operator[]', 'operator*', 'operator->', 'at', 'get', 'value', 'data'}
+A8_PY_CASTS = {'thread_safe_cast', 'cast'}
+
+
+def _a8_origin(f, e, decls, depth=0):
+    """who owns the object an lvalue expression denotes: 'own' (a local object of this call, a
+    by-value or rvalue-reference parameter, a temporary), 'const' (moving it copies), 'python'
+    (a C++ object inside a Python object), 'caller' (a non-const reference parameter), 'self'
+    (a member of *this), or 'unknown'"""
+    e = strip_casts(e)
+    if e is None or depth > 8:
+        return 'unknown'
+    t = e.type or ''
+    if e.kind == 'DeclRefExpr':
+        r = e.ref or {}
+        rt = (r.get('type') or '').strip()
+        if r.get('kind') == 'ParmVarDecl':
+            if rt.endswith('&&') or '&' not in rt:
+                return 'own'
+            return 'const' if rt.startswith('const ') else 'caller'
+        if r.get('kind') in ('VarDecl', 'BindingDecl'):
+            if '&' not in rt or rt.endswith('&&'):
+                return 'own'
+            if rt.startswith('const '):
+                return 'const'
+            d = decls.get(r.get('id'))
+            if d is not None and d.kids and d.kids[-1] is not None:
+                o = _a8_origin(f, d.kids[-1], decls, depth + 1)
+                # a non-const reference to something that was const: the constness was cast away
+                return 'caller' if o == 'const' else o
+            return 'unknown'
+        return 'unknown'
+    if e.kind == 'CXXThisExpr':
+        return 'self'
+    if e.kind == 'MemberExpr':
+        if not e.kids or e.kids[0] is None:
+            return 'self'
+        return _a8_origin(f, e.kids[0], decls, depth + 1)
+    if e.kind in ('ParenExpr', 'ExprWithCleanups', 'MaterializeTemporaryExpr', 'ImplicitCastExpr') and e.kids:
+        return _a8_origin(f, e.kids[0], decls, depth + 1)
+    if e.kind == 'UnaryOperator' and e.op == '*' and e.kids:
+        return _a8_origin(f, e.kids[0], decls, depth + 1)
+    if e.kind in CALL_KINDS:
+        nm = e.callee_name()
+        # the expression type of a call drops the reference; the callee's function type has it
+        ret = ''
+        for k in e.kids[:1]:
+            kk = strip_casts(k)
+            if kk is not None and kk.kind in ('DeclRefExpr', 'MemberExpr'):
+                ft = kk.type or (kk.ref or {}).get('type') or ''
+                if '(' in ft:
+                    ret = ft[:ft.index('(')].strip()
+        by_ref = ret.endswith('&') and not ret.endswith('&&')
+        if nm in A8_PY_CASTS and by_ref:
+            return 'const' if ret.startswith('const ') else 'python'
+        if nm in A8_ACCESSORS:
+            b = e.call_base() if e.kind == 'CXXMemberCallExpr' else (e.kids[1] if len(e.kids) > 1 else None)
+            return _a8_origin(f, b, decls, depth + 1)
+        if nm == 'move' and e.call_args():
+            return _a8_origin(f, e.call_args()[0], decls, depth + 1)
+        if ret and not ret.endswith('&'):
+            return 'own'          # a value the call made
+        return 'unknown'
+    if e.kind in CTOR_KINDS or e.kind in ('CXXBindTemporaryExpr', 'InitListExpr', 'LambdaExpr'):
+        return 'own'
+    return 'unknown'
+
+
+@rule('A8', floor=20, title='std::move takes only what the call itself owns')
+def a8(ctx):
+    """Moving from an object leaves it empty.  Every `std::move(x)` in the engine is applied to a
+    local object of the call, a by-value / rvalue-reference parameter or a temporary - never to a
+    C++ object that lives inside a Python object (`thread_safe_cast<T &>(obj)`), to a non-const
+    reference parameter or to a member of `*this`: those are operands of the caller, and an
+    operation must leave its operands unchanged."""
+    prog = ctx.cxx()
+    n = 0
+    for f in live_funcs(prog):
+        if f.body is None or not (f.file or '').startswith(('src/', 'include/optree/')):
+            continue
+        moves = [c for c in calls_in(f.body, {'move'}) if c.kind == 'CallExpr' and len(c.call_args()) == 1]
+        if not moves:
+            continue
+        decls = {}
+        root = f if not f.is_lambda else prog.funcs.get(f.parent, f)
+        for b_ in (root.body, f.body):
+            if b_ is not None:
+                for d in b_.walk(True):
+                    if d.kind in ('VarDecl', 'BindingDecl') and d.id is not None:
+                        decls[d.id] = d
+        for c in moves:
+            a = c.call_args()[0]
+            at = (a.type or '') if a is not None else ''
+            if at.startswith('const '):
+                o = 'const'
+            else:
+                o = _a8_origin(f, a, decls)
+            n += 1
+            owner = f if not f.is_lambda else prog.funcs.get(f.parent, f)
+            site = '%s/move(%s)' % (short(owner), (a.text(3) if a is not None else '?')[:40])
+            ctx.check(site, o not in ('python', 'caller', 'self'),
+                      '%s: std::move(%s) - %s' % (inst(f), a.text(3) if a is not None else '?', o),
+                      '%s: `std::move(%s)` empties %s - an operand of the caller, which must be left '
+                      'unchanged (a treespec the callback keeps, or returns again, is then an empty shell)'
+                      % (inst(f), a.text(3) if a is not None else '?',
+                         {'python': 'a C++ object that lives inside a Python object',
+                          'caller': 'an object passed by non-const reference',
+                          'self': 'a member of *this'}.get(o, o)), c.loc)
+    ctx.require(n >= 20, 'only %d std::move sites found' % n)
